@@ -247,6 +247,30 @@ def r17_4(ctx):
             r.ok({"function": fn, "sets": "state=Closed, then close_tx.notify_one() and flow_control_notify.notify_waiters()"})
         else:
             r.violate(fn, "wake", b.where(0), "close does not set Closed before waking both Notify objects")
+    # the association also ends without close(): peer ABORT / SHUTDOWN-ACK, heartbeat or INIT timeout, transport loss.
+    # All of those end run_loop, whose cleanup guard is the one place that runs on every exit.
+    gfn = "<transports::sctp::SctpCleanupGuard<'a> as std::ops::Drop>::drop"
+    if not ctx.facts.has_body(gfn):
+        cands = [n for n in ctx.facts.order if "SctpCleanupGuard" in n and n.endswith("::drop")]
+        if len(cands) != 1:
+            raise core.CheckerError("R17.4: SctpCleanupGuard::drop not found")
+        gfn = cands[0]
+    gb = ctx.body(gfn)
+    r.scope.append(gfn)
+    gclosed = [bi for bi, si, s_, v in core.lock_write_sites(gb, "state", methods=("::lock",)) if v[0] == "agg" and v[2] == "Closed"]
+    gn = [bi for bi, t, p in gb.calls() if p and p.endswith("Notify::notify_waiters") and mir.has_field(gb.term_operand(t["a"][0]), "flow_control_notify")]
+    grets = [i for i, blk in enumerate(gb.blocks) if blk["t"]["k"] == "ret" and i not in gb.cleanup]
+    if gclosed and gn and all(core.must_pass(gb, x, gclosed) for x in gn) and all(core.must_pass(gb, rb, gn) for rb in grets):
+        r.ok({"function": gfn, "sets": "state=Closed, then flow_control_notify.notify_waiters() on every path"})
+    else:
+        r.violate(gfn, "wake", gb.where(0),
+                  "run_loop's cleanup guard marks the association Closed without waking senders parked on flow control: after a "
+                  "peer ABORT/SHUTDOWN or a timeout a blocked send_data() never returns")
+    rl = ctx.body("transports::sctp::SctpInner::run_loop::{closure#0}")
+    if core.aggregates(rl, lambda a: a.endswith("sctp::SctpCleanupGuard")):
+        r.ok({"function": rl.name, "holds": "SctpCleanupGuard for its whole body"})
+    else:
+        r.violate(rl.name, "guard", rl.where(0), "run_loop no longer holds the cleanup guard")
     # waiter re-tests Closed before each wait
     sd = ctx.body("transports::sctp::SctpInner::send_data_raw::{closure#0}")
     waits = [bi for bi, t, p in sd.calls() if p and p.endswith("Notify::notified") and mir.has_field(sd.term_operand(t["a"][0]), "flow_control_notify")]
